@@ -11,7 +11,8 @@ EXPLANATION = (
     "feature_can_be_used with the *_collect thresholds, own-area shares are computed whenever either own-area "
     "threshold is positive and indexed by the detection's own position; (R13.4) wasted-track records copy histories "
     "in order and last entries via back()."
-    ' (R13.7) the metric works with the configured bounds themselves: VisualMetricBuilder::build hands visual_max_observations and the collect / use thresholds over unchanged, and the observation constructor stores the given quality unchanged.')
+    ' (R13.7) the metric works with the configured bounds themselves: VisualMetricBuilder::build hands visual_max_observations and the collect / use thresholds over unchanged, and the observation constructor stores the given quality unchanged.'
+    ' (R13.8) the boxes that enter histories are the ones observed / estimated (the filter takes plain coordinates: R07.10); (R13.9) the record reads the last history entries (record wiring of C01).')
 NOT_DECIDED = ["bounds under user code that edits observations through get_mut_observations",
                "concrete gallery contents for concrete quality sequences"]
 ASSUMPTIONS = ["VecDeque / Vec / sort behave as documented", "rustc nightly MIR construction"]
